@@ -524,6 +524,17 @@ class H:
                 self.conflict_handled(a[1], path, phase)
             elif op == "stall":
                 sim.stall(a[1])
+            elif op == "pg":
+                # the component is suspended in the clean-up of an async generator it is closing
+                async def _agen() -> Any:
+                    try:
+                        yield 1
+                    finally:
+                        await sim.pause(0, a[1])
+
+                g_ = _agen()
+                await g_.__anext__()
+                await g_.aclose()
             elif op == "sp":
                 # work that must not be interrupted (shielded from cancellation)
                 sim.log("sp_begin", path=path, t=sim.now(), round=self.round)
@@ -546,6 +557,21 @@ class H:
 
                     add_resource(self.val(f"dup_{path}"), "conflict_key", [t_conf], teardown_callback=rogue)
                     sim.log("note", what="conflict_not_raised")
+                    continue
+                if a[1] == "fac_lookup":
+                    # the failure comes out of a resource factory the component itself has
+                    # registered a moment ago, and it is a LookupError (as a failed dict or
+                    # registry access inside the factory would be): a failure like any other
+                    e = SimLookup(f"{phase} {path}")
+                    e.tag = f"F:{path}:{phase}"  # type: ignore[attr-defined]
+                    sim.log("fail", path=path, phase=phase, tag=e.tag)  # type: ignore[attr-defined]
+
+                    def broken_factory(e: BaseException = e) -> Any:
+                        raise e
+
+                    add_resource_factory(broken_factory, f"broken_{self.ndecoy}", types=[RT[len(RT) - 2]])
+                    await get_resource(RT[len(RT) - 2], f"broken_{self.ndecoy}")
+                    sim.log("note", what="broken_factory_did_not_fail")
                     continue
                 e = FAIL_CLASSES[a[1]](f"{phase} {path}")
                 e.tag = f"F:{path}:{phase}"  # type: ignore[attr-defined]
@@ -639,7 +665,33 @@ class H:
                     return v
 
                 fac_ = afac if spec.get("fdur") is not None else sfac
-                if spec.get("annot") and not spec.get("ga"):
+                if spec.get("fobj"):
+                    # a callable object with value semantics (equality defined: unhashable)
+                    inner_ = fac_
+                    if spec.get("fdur") is not None:
+
+                        class _UhFac:
+                            __hash__ = None  # type: ignore[assignment]
+
+                            def __eq__(self_, other: Any) -> bool:
+                                return type(other) is type(self_)
+
+                            async def __call__(self_) -> Any:
+                                return await inner_()
+
+                    else:
+
+                        class _UhFac:  # type: ignore[no-redef]
+                            __hash__ = None  # type: ignore[assignment]
+
+                            def __eq__(self_, other: Any) -> bool:
+                                return type(other) is type(self_)
+
+                            def __call__(self_) -> Any:
+                                return inner_()
+
+                    fac_ = _UhFac()  # type: ignore[assignment]
+                if spec.get("annot") and not spec.get("ga") and not spec.get("fobj"):
                     # the types come from the factory's return annotation (a union of them)
                     from typing import Union
 
@@ -744,7 +796,22 @@ class H:
             if nested:
                 h.td(nested, path, late=True)
 
-        if spec.get("async"):
+        if spec.get("async") and spec.get("aw_obj"):
+            # a plain callable returning an awaitable *object* (not a coroutine)
+            async def _rest() -> None:
+                await sim.pause(0, spec.get("dur", 0.0))
+                follow_up()
+                sim.log("td_done", td=tdid)
+
+            class _AwTd:
+                def __await__(self_) -> Any:
+                    return _rest().__await__()
+
+            def cb() -> Any:  # type: ignore[misc]
+                sim.log("td_run", td=tdid)
+                return _AwTd()
+
+        elif spec.get("async"):
 
             async def cb() -> None:
                 sim.log("td_run", td=tdid)
@@ -925,7 +992,7 @@ def plan_duration(plan: dict) -> float:
             for a in n.get(ph) or ():
                 if a[0] == "p":
                     total += a[2]
-                elif a[0] in ("stall", "sp"):
+                elif a[0] in ("stall", "sp", "pg"):
                     total += a[1]
                 elif a[0] == "pub" and a[1].get("fdur"):
                     total += a[1]["fdur"]
@@ -1267,7 +1334,7 @@ def model_timeline(plan: dict) -> dict:
                 op = a[0]
                 if op == "p":
                     t += a[2]
-                elif op == "sp":
+                elif op in ("sp", "pg"):
                     t += a[1]
                 elif op == "stall":
                     t += a[1]
@@ -1909,6 +1976,19 @@ def oracle(sim: Sim, plan: dict) -> list[dict]:
                         if r[5]["td"] in stack_:
                             stack_.remove(r[5]["td"])
             rule = "C05.ownership" if sc_end[4] == "sc_return" else "C07.ownership"
+            # every callback that began has finished - awaitable results included - before the
+            # next one begins and before the calling context has been left
+            open_td: Any = None
+            for r in tr:
+                if r[4] == "td_run" and not str(r[5]["td"]).startswith(("rogue_", "rtd_")):
+                    if open_td is not None and not sim.aborting:
+                        v(rule, "teardown_unfinished", f"teardown callback {open_td} had begun but not finished (what it returned was not awaited to the end?) when {r[5]['td']} began")
+                    open_td = r[5]["td"]
+                elif r[4] == "td_done" and r[5]["td"] == open_td:
+                    open_td = None
+                elif r[4] == "real_exit" and open_td is not None and not sim.aborting:
+                    v(rule, "teardown_unfinished", f"teardown callback {open_td} had begun but not finished when the calling context had been left")
+                    open_td = None
             if not order_ok:
                 v(rule, "teardown_order", f"teardown callbacks ran {runs}; registered (in order) {regs}")
             elif stack_:
@@ -2208,6 +2288,8 @@ class G:
                 r = rng.random()
                 if r < 0.3:
                     acts.append(rpause(rng))
+                    if self.prop == "C07" and acts[-1][2] > 0 and rng.random() < 0.15:
+                        acts[-1] = ["pg", acts[-1][2]]
                 elif r < 0.3 + wprob and avail:
                     ti, nm, isfac, fdur = rng.choice(avail)
                     self.nw += 1
@@ -2252,6 +2334,8 @@ class G:
                         spec["fac"] = True
                         if rng.random() < 0.3:
                             spec["annot"] = True
+                        elif rng.random() < 0.2:
+                            spec["fobj"] = True
                         if rng.random() < 0.6:
                             spec["fdur"] = 0.0
                             if self.prop in ("C06", "C07", "C05") and rng.random() < 0.4:
@@ -2281,6 +2365,8 @@ class G:
                 elif r < 0.86:
                     self.ntd += 1
                     tdspec: dict[str, Any] = {"id": f"cb{self.ntd}", "async": rng.random() < 0.5, "dur": rng.choice(DTS[:4])}
+                    if tdspec["async"] and rng.random() < 0.2:
+                        tdspec["aw_obj"] = True
                     if rng.random() < 0.2:
                         self.ntd += 1
                         tdspec["nested"] = {"id": f"cb{self.ntd}", "async": rng.random() < 0.5, "dur": rng.choice(DTS[:3])}
@@ -2587,8 +2673,8 @@ def gen(rng: random.Random, tier: str, prop: str) -> dict:
         path, n = rng.choice(nodes)
         phases = ["creating"] + [ph for ph in ("prepare", "start") if n.get(ph) is not None]
         ph = rng.choice(phases)
-        cls = rng.choice(("SimError", "SimLookup", "SimTimeout", "conflict", "group1"))
-        if ph == "creating" and cls == "conflict":
+        cls = rng.choice(("SimError", "SimLookup", "SimTimeout", "conflict", "group1", "fac_lookup"))
+        if ph == "creating" and cls in ("conflict", "fac_lookup"):
             cls = "SimTimeout"
         if ph == "creating":
             n["fail_init"] = cls
